@@ -1,6 +1,8 @@
 #!/bin/sh
-# Offline build of the simulator against /repo's current working tree.
+# Offline build of the simulator against /repo's current working tree (both profiles: release, and the
+# overflow-checked twin that C08/C15 run as a child process).
 set -e
 cd "$(dirname "$0")/sim"
 export CARGO_NET_OFFLINE=true
 cargo build --release --offline 2>&1 | tail -3
+cargo build --profile checked --offline 2>&1 | tail -3
